@@ -1,11 +1,42 @@
 import Bpmn.Props.C09
 import Bpmn.Gen.C09
-/-! C09 instantiated at the facts extracted from the current /repo tree. -/
+/-! C09 instantiated at the facts extracted from the current /repo tree (pkg/tracing/tracer.go).
+
+The shape facts the model hard-wires (unbuffered request channels, the acknowledgement channels, list-order
+broadcast, swap-removal) are checked to be what the model has; a change there needs the model to be looked at again,
+and this module stops type-checking. The one behavioural switch — does the `Unsubscribe` loop drain its own channel —
+selects a side of a dichotomy that is proved for both values: the progress theorem when it does, the kernel-checked
+deadlock schedule when it does not. The default capacity of `Subscribe()` only has to be known (every theorem holds
+for all capacities). -/
 namespace Bpmn.Props.C09
 
 /-- the three request channels are unbuffered, as the model has them -/
 theorem current_channels_unbuffered :
     Bpmn.Gen.C09.tracesCap = some 0 ∧ Bpmn.Gen.C09.subscriptionCap = some 0 ∧
     Bpmn.Gen.C09.unSubscriptionCap = some 0 := by decide
+
+/-- `SubscribeChannel`'s acknowledgement channel has room (the broadcaster does not wait for the client to pick the
+acknowledgement up: `recvSub` is one step), `Unsubscribe`'s is unbuffered (the broadcaster waits in `ackUnsub`) -/
+theorem current_ack_channels :
+    (∃ n, Bpmn.Gen.C09.subscribeOkCap = some n ∧ 1 ≤ n) ∧ Bpmn.Gen.C09.unsubscribeOkCap = some 0 :=
+  ⟨⟨1, by decide, by decide⟩, by decide⟩
+
+/-- the broadcaster pushes each trace to every subscriber in list order before returning to its `select`, and removes
+by copying the last element into the freed slot — the two things `Pc.push` and `swapRemove` port -/
+theorem current_broadcast_shape :
+    Bpmn.Gen.C09.broadcastInListOrder = some true ∧ Bpmn.Gen.C09.removalSwapsWithLast = some true := by decide
+
+/-- the capacity `Subscribe()` uses is known (the theorems hold for every capacity) -/
+theorem current_default_cap_known : Bpmn.Gen.C09.subscribeDefaultCap.isSome = true := by decide
+
+def ProgressClaimAt : Option Bool → Prop
+  | some b => ProgressClaim b
+  | none => False
+
+theorem progressClaimAt_some (b : Bool) : ProgressClaimAt (some b) := progress_dichotomy b
+
+/-- on the current tree `some true`: bounded progress of every concurrent Subscribe / Unsubscribe / Send; after an
+edit that removes the drain: the deadlock schedule `nodrainSched` -/
+theorem current_progress : ProgressClaimAt Bpmn.Gen.C09.unsubscribeDrains := progressClaimAt_some _
 
 end Bpmn.Props.C09
